@@ -205,6 +205,7 @@ def main(tier: str, workers: int = 16) -> int:
                      "hash_key": p["hash_key"]} for p in plans],
         "invocations_per_command": {k.split(":", 1)[1]: v for k, v in sorted(stats.items()) if k.startswith("cmd:")},
         "outcomes": {k.split(":", 1)[1]: v for k, v in sorted(stats.items()) if k.startswith("outcome:")},
+        "reinvocations_with_one_option_changed": {k.split(":", 1)[1]: v for k, v in sorted(stats.items()) if k.startswith("reinvoke:")},
         "call_faults": fault_kinds,
         "state_faults_applied": state_faults,
         "probes": {k: stats.get(k, 0) for k in (
